@@ -317,8 +317,17 @@ func lower(doc Doc, l Layout) []symObj {
 func contentParts(doc Doc, p Page, k int, tight bool) [][]byte {
 	var toks []string
 	for _, ln := range p.Lines {
-		toks = append(toks, "BT", "/"+doc.Fonts[ln.Font].Res, fmtNum(ln.Size), "Tf", fmtNum(ln.X), fmtNum(ln.Y), "Td",
-			string(serString(Str{ln.Bytes, ln.Hex})), "Tj", "ET")
+		if ln.Saved {
+			toks = append(toks, "q")
+		}
+		toks = append(toks, "BT")
+		if !ln.Inherit {
+			toks = append(toks, "/"+doc.Fonts[ln.Font].Res, fmtNum(ln.Size), "Tf")
+		}
+		toks = append(toks, fmtNum(ln.X), fmtNum(ln.Y), "Td", string(serString(Str{ln.Bytes, ln.Hex})), "Tj", "ET")
+		if ln.Saved {
+			toks = append(toks, "Q")
+		}
 	}
 	toks = append(toks, strings.Fields(p.Trailer)...)
 	if k > len(toks) {
